@@ -664,6 +664,14 @@ func phase1(r *rng, emit func(cdoc)) {
 				emit(cdoc{kind: kind, doc: withMember(base, n, mustJV(`true`)), nf: true, phase: 1, tags: []string{"phase1", "single", "ext", "ext-well-known"}})
 			}
 		}
+		if kind == "Schema" {
+			// keywords of later JSON-Schema drafts that Swagger 2.0 does not model: unknown keywords like any other, whatever they hold
+			for _, n := range []string{"contains", "propertyNames", "if", "then", "else", "const", "$defs", "dependentSchemas", "unevaluatedProperties", "examples", "$id", "$comment"} {
+				for _, v := range []string{`{"type":"string"}`, `true`, `[{"type":"string"}]`, `{"$ref":"#/definitions/x"}`} {
+					emit(cdoc{kind: kind, doc: withMember(base, n, mustJV(v)), nf: true, phase: 1, tags: []string{"phase1", "single", "unknown-kw", "later-draft-keyword"}})
+				}
+			}
+		}
 		for _, kw := range ki.kws { // a required string may be empty
 			if kw.ft.class == "str" && isRequired(ki, kw.name) {
 				emit(cdoc{kind: kind, doc: withMember(base, kw.name, jStr("")), nf: true, phase: 1, tags: []string{"phase1", "single", "kw:" + kw.name, "empty-required"}})
